@@ -56,6 +56,15 @@ fn cells(family: &str, w: &MWord) -> Vec<(String, Option<MWord>, String)> {
                 let mut out = w.clone(); let mut k = 0;
                 for sy in out.sylls.iter_mut() { for s in sy.segs.iter_mut() { if k + 1 < flat.len() { s.set_node(n, flat[k + 1].node(n)); } k += 1; } }
                 v.push((format!("[] > [α{name}] / _[α{name}]"), Some(out), "alpha|node copied from the following segment".into()));
+                // agreement: the alpha bound on the target is *compared* with the neighbour's sub-node (absent agrees only with absent, present only with the same value)
+                let agree = |i: usize, j: Option<usize>| j.map(|j| flat[i].node(n) == flat[j].node(n)).unwrap_or(false);
+                let mut k = 0; let mut fire_after = vec![]; let mut fire_before = vec![];
+                for _ in 0..flat.len() { fire_after.push(agree(k, if k + 1 < flat.len() { Some(k + 1) } else { None })); fire_before.push(agree(k, k.checked_sub(1))); k += 1; }
+                for (fires, rule) in [(fire_after, format!("[α{name}] > [tone:7] / _[α{name}]")), (fire_before, format!("[α{name}] > [tone:7] / [α{name}]_"))] {
+                    let mut out = w.clone(); let mut k = 0;
+                    for sy in out.sylls.iter_mut() { let mut any = false; for _ in sy.segs.iter() { if fires[k] { any = true; } k += 1; } if any { sy.tone = 7; } }
+                    v.push((rule, Some(out), "alpha|node agreement with the neighbour".into()));
+                }
             }
         }
         _ => {
@@ -115,7 +124,7 @@ impl Property for C04 {
     fn rule(&self) -> String {
         "Exhaustive over segments S = 365 bases ∪ every base+1 diacritic (model-applied diacritic; kept if asca parses it to the same bundle), each placed alone (`S`) and as the middle syllable of `pa.S.ta`, \
          × rule families: set (`[] > [±F]` for 26 features, `[] > [±lab|cor|dor|phr]`, `[] > [-place]`; `[+place]` and `[±root|manner|lar]` must be errors), match (`[±F] > [tone:7]`, `[±node] > [tone:7]`, tone as the match marker), \
-         alpha (`[αF] > [αG]` and `[αF] > [-αG]` for all 26×26 pairs), node alphas (`[αN] > [αN]`, `[] > [αN] / _[αN]`). One case = (segment, context, family) = 10-62 rule applications; the result is compared structurally with a bit-level model \
+         alpha (`[αF] > [αG]` and `[αF] > [-αG]` for all 26×26 pairs), node alphas (`[αN] > [αN]`, `[] > [αN] / _[αN]`, and agreement `[αN] > [tone:7] / _[αN]`, `/ [αN]_`). One case = (segment, context, family) = 10-62 rule applications; the result is compared structurally with a bit-level model \
          (own representation: root/manner/laryngeal bytes + four optional sub-nodes; in addition the place node of every result segment must be absent exactly when all four sub-nodes are). Both tiers enumerate the whole space; the thorough tier adds every 4th base+2-diacritic text. A random part (300k / 4M cases) applies `[±F.., αG.., ±H..] > [±K.., αL, -βM..]` (2-4 input and 1-3 output arguments, fixed signs directed at a segment of the word) to words of 2-6 pool segments; model: every segment is decided on its own, alphas unbound at every position; non-trivial there = a segment matches after an earlier segment bound an alpha and then failed a later argument. Non-trivial: the model predicts a change of the word for at least one rule of the case.".into()
     }
     fn exhaustive(&self, _t: Tier) -> bool { true }
